@@ -248,7 +248,7 @@ Lemma arc_image (A : Affine R) (arc : Arc R) (t : R) :
 Proof.
   destruct A as [a b c d e f], arc as [[cx cy] [rx ry] th0 dl phi].
   cbn [arc_radii vx vy]. intros Hdet Hrx Hry.
-  unfold aff_mul_arc, ellipse_radii_and_rotation.
+  unfold aff_mul_arc, ellipse_radii_and_rotation. rewrite svd_variants_agree.
   cbn [arc_center arc_radii arc_x_rotation arc_start_angle arc_sweep_angle].
   set (M := el_inner (aff_mul_ellipse (mkAffine a b c d e f) (ellipse_new (mkPoint cx cy) (mkVec2 rx ry) phi))).
   assert (HM : M = mkAffine ((a * cos phi + c * sin phi) * rx) ((b * cos phi + d * sin phi) * rx)
@@ -370,7 +370,7 @@ Lemma arc_pinned_refuted_identity :
     /\ arc_eval (aff_mul_arc_pinned aff_identity arc) 0 <> aff_apply aff_identity (arc_eval arc 0).
 Proof.
   exists (mkArc (mkPoint 0 0) (mkVec2 2 1) 0 1 PI). cbn [arc_radii vx vy]. split; [lra|split; [lra|]].
-  unfold aff_mul_arc_pinned, ellipse_radii_and_rotation.
+  unfold aff_mul_arc_pinned, ellipse_radii_and_rotation. rewrite svd_variants_agree.
   cbn [arc_center arc_radii arc_x_rotation arc_start_angle arc_sweep_angle].
   assert (HM : el_inner (aff_mul_ellipse aff_identity (ellipse_new (mkPoint 0 0) (mkVec2 2 1) PI))
                = mkAffine (-2) 0 0 (-1) 0 0).
@@ -393,7 +393,7 @@ Proof.
   exists (mkArc (mkPoint 0 0) (mkVec2 2 1) 0 (PI / 2) 0). cbn [arc_radii vx vy].
   split; [lra|split; [lra|split]].
   { aff_unfold. lra. }
-  unfold aff_mul_arc_pinned, ellipse_radii_and_rotation.
+  unfold aff_mul_arc_pinned, ellipse_radii_and_rotation. rewrite svd_variants_agree.
   cbn [arc_center arc_radii arc_x_rotation arc_start_angle arc_sweep_angle].
   assert (HM : el_inner (aff_mul_ellipse aff_FLIP_Y (ellipse_new (mkPoint 0 0) (mkVec2 2 1) 0))
                = mkAffine 2 0 0 (-1) 0 0).
@@ -476,7 +476,7 @@ Lemma ellipse_new_radii (c : Point R) (radii : Vec2 R) (rot : R) :
   let r := fst (ellipse_radii_and_rotation (ellipse_new c radii rot)) in
   vx r = Rmax (Rabs (vx radii)) (Rabs (vy radii)) /\ vy r = Rmin (Rabs (vx radii)) (Rabs (vy radii)).
 Proof.
-  destruct c as [cx cy], radii as [rx ry]. cbn [vx vy]. unfold ellipse_radii_and_rotation.
+  destruct c as [cx cy], radii as [rx ry]. cbn [vx vy]. unfold ellipse_radii_and_rotation. rewrite svd_variants_agree.
   set (M := el_inner (ellipse_new (mkPoint cx cy) (mkVec2 rx ry) rot)).
   destruct (svd_invariants M) as ((H2 & H21) & Hs & Hp). cbv zeta in *.
   assert (HM : M = mkAffine (cos rot * Rabs rx) (sin rot * Rabs rx) (- sin rot * Rabs ry) (cos rot * Rabs ry) cx cy).
@@ -501,4 +501,32 @@ Proof.
   unfold Rmax, Rmin. destruct (Rle_dec p q) as [Hpq|Hpq].
   - assert (u - v = q - p) by nra. lra.
   - assert (u - v = p - q) by nra. lra.
+Qed.
+
+(** * the same facts for the svd the tree implements ([aff_svd_det]) *)
+Lemma svd_det_invariants (m : Affine R) :
+  let r := fst (aff_svd_det m) in
+  0 <= vy r <= vx r
+  /\ vx r * vx r + vy r * vy r = aa m * aa m + ab m * ab m + ac m * ac m + ad m * ad m
+  /\ vx r * vy r = Rabs (aff_determinant m).
+Proof. rewrite svd_variants_agree. apply svd_invariants. Qed.
+
+Lemma svd_det_decomposition (m : Affine R) :
+  let r := fst (aff_svd_det m) in let phi := snd (aff_svd_det m) in
+  let C := cos phi in let S := sin phi in
+  aa m * aa m + ac m * ac m = vx r * vx r * (C * C) + vy r * vy r * (S * S)
+  /\ ab m * ab m + ad m * ad m = vx r * vx r * (S * S) + vy r * vy r * (C * C)
+  /\ aa m * ab m + ac m * ad m = (vx r * vx r - vy r * vy r) * (S * C).
+Proof. rewrite svd_variants_agree. apply svd_decomposition. Qed.
+
+Lemma ellipse_det_implicit (e : Ellipse R) (th : R) :
+  aff_determinant (el_inner e) <> 0 ->
+  let r := fst (ellipse_radii_and_rotation e) in let phi := snd (ellipse_radii_and_rotation e) in
+  let p := ellipse_point e th in
+  let dx := px p - px (ellipse_center e) in let dy := py p - py (ellipse_center e) in
+  let lx := cos phi * dx + sin phi * dy in let ly := - sin phi * dx + cos phi * dy in
+  (lx / vx r) * (lx / vx r) + (ly / vy r) * (ly / vy r) = 1.
+Proof.
+  destruct e as [m]. cbn [el_inner]. intros Hd. unfold ellipse_radii_and_rotation. cbn [el_inner].
+  rewrite svd_variants_agree. exact (ellipse_implicit m th Hd).
 Qed.
